@@ -570,7 +570,7 @@ pub fn unmerged<G: Cfg>(sub: &str, p: &Params, depth: usize) -> (Collector, BTre
                 n_ops += ops.len() as u64;
                 i += nch;
             }
-            c.add(sub, n_ops, n_ops, traces, n_ops);
+            c.add(sub, 0, n_ops, traces, 0);
             (c, reach, next)
         });
         let mut next_frontier = vec![];
@@ -583,6 +583,8 @@ pub fn unmerged<G: Cfg>(sub: &str, p: &Params, depth: usize) -> (Collector, BTre
         }
         frontier = next_frontier;
     }
+    // states of this sub-check = distinct canonical contents the sequences led to
+    total.add(sub, reach.len() as u64, 0, 0, reach.keys().filter(|k| k.len() >= 2).count() as u64);
     (total, reach)
 }
 
